@@ -285,6 +285,64 @@ def r_broken_dispatch(e, R):
 
 
 # ---------------------------------------------------------------------------
+# R-MGR-TOTAL
+# ---------------------------------------------------------------------------
+
+# stdlib operations that raise for some argument values (a partial function): a
+# call on the manager's detection path must handle that exception class.
+PARTIAL_STDLIB = {
+    "signal.Signals": ("ValueError", "raises ValueError for numbers that are not members of the enum (e.g. real-time signals 35..63, which signal.valid_signals() does contain)"),
+    "signal.strsignal": ("ValueError", "raises ValueError for out-of-range signal numbers"),
+}
+
+
+def r_mgr_total(e, R):
+    """Between the wait and the broken-pool routine the manager must not
+    raise: an exception there kills the thread at the very moment it has
+    detected a death, so nothing is flagged, failed, killed or reaped.  Helpers
+    reachable from the wait function may use value-partial stdlib calls only
+    inside a handler of the exception they can raise."""
+    a = e.anchors
+    wf = e.prog.funcs[next(iter({f.qualname for f, _ in a.wait_calls}))]
+    reach = e.reach([wf.qualname])
+    n = 0
+    for q in reach:
+        f = e.prog.funcs[q]
+        g = e.cfg(f)
+        for c in [x for x in func_nodes(f) if isinstance(x, ast.Call)]:
+            dotted = None
+            for v in e.pt.ev(f, c.func):
+                if v[0] == "ext" and v[1] in PARTIAL_STDLIB:
+                    dotted = v[1]
+            if dotted is None:
+                continue
+            n += 1
+            exc, why = PARTIAL_STDLIB[dotted]
+            ok = False
+            for cn in cfg_nodes(e, f, c):
+                hs = [m for m, l in cn.succ if l == "exc" and m.kind == "except"]
+                ok = any(h.ast.type is None or norm(h.ast.type) in (exc, "Exception", "BaseException") or exc in norm(h.ast.type) for h in hs)
+            R.check(ok, "R-MGR-TOTAL", f"{f.short}: `{norm(c)[:40]}` (value-partial) is guarded by a handler of {exc}", f.short, norm(c)[:60],
+                    f"`{dotted}` {why}; it is reachable from the manager's wait/classification step ({' -> '.join(e.call_path(reach, q))}) without a "
+                    f"handler of {exc}: the manager thread dies while reporting a worker death, the pool is never flagged broken and every "
+                    "pending future stays unresolved", e.loc(f, c))
+    # explicit raises on that path (outside any handler) are the same hazard
+    for q in reach:
+        f = e.prog.funcs[q]
+        g = e.cfg(f)
+        for rn in [x for x in g.nodes if x.kind == "stmt" and isinstance(x.ast, ast.Raise)]:
+            esc = g.path_exists(rn, lambda m: m is g.raise_exit, use_exc=True)
+            hs = [m for m, l in rn.succ if l == "exc" and m.kind == "except"]
+            if esc and not hs and f.module.name.startswith("loky."):
+                n += 1
+                R.fail("R-MGR-TOTAL", f.short, norm(rn.ast)[:60], "an exception is raised on the manager's detection path and not handled: the "
+                       "manager thread dies before the pool is flagged broken", e.loc(f, rn.ast))
+    R.info["mgr_total_partial_calls"] = n
+    if n < 1:
+        R.ok("R-MGR-TOTAL", "no value-partial stdlib call on the manager's detection path", None)
+
+
+# ---------------------------------------------------------------------------
 # R-BROKEN-ORDER
 # ---------------------------------------------------------------------------
 
